@@ -426,6 +426,75 @@ func Populate(r *rand.Rand, items []fix.Item, o *Opts, p float64, first, firstAl
 	return out
 }
 
+// Mutate applies typed Set calls to a random subset of the populated fields of an already populated
+// (for example parsed) item list and updates the shadow accordingly; returns how many fields changed.
+func Mutate(r *rand.Rand, items []fix.Item, shadow []*S, o *Opts, p float64) int {
+	n := 0
+	for i, it := range items {
+		sh := shadow[i]
+		switch el := it.(type) {
+		case *fix.KeyValue:
+			if sh.Valid && r.Float64() < p {
+				sh.Text = setTyped(r, el, o)
+				n++
+			}
+		case *fix.Component:
+			n += Mutate(r, el.Items(), sh.Kids, o, p)
+		case *fix.Group:
+			for k, e := range el.Entries() {
+				if k < len(sh.Entries) {
+					n += Mutate(r, e, sh.Entries[k], o, p)
+				}
+			}
+		}
+	}
+	return n
+}
+
+// setTyped sets a new random value through the value's typed Set and returns its canonical text.
+func setTyped(r *rand.Rand, kv *fix.KeyValue, o *Opts) []byte {
+	switch v := kv.Value.(type) {
+	case *fix.String:
+		s := string(RandText(r, o))
+		_ = v.Set(s)
+		return []byte(s)
+	case *fix.Int:
+		n := RandInt(r)
+		_ = v.Set(n)
+		return []byte(strconv.Itoa(n))
+	case *fix.Uint:
+		n := RandUint(r)
+		_ = v.Set(n)
+		return []byte(strconv.FormatUint(n, 10))
+	case *fix.Float:
+		f := RandFloat(r)
+		_ = v.Set(f)
+		return []byte(strconv.FormatFloat(f, 'f', -1, 64))
+	case *fix.Time:
+		t := RandTime(r)
+		_ = v.Set(t)
+		return []byte(t.Format("20060102-15:04:05.000"))
+	case *fix.Bool:
+		b := r.Intn(2) == 0
+		_ = v.Set(b)
+		if b {
+			return []byte("Y")
+		}
+		return []byte("N")
+	case *fix.Raw:
+		b := RandText(r, o)
+		_ = v.Set(b)
+		return b
+	}
+	return nil
+}
+
+// MutateMsg is Mutate over header and body of a message (the trailer is never serialized).
+func MutateMsg(r *rand.Rand, all fix.Items, m *SMsg, o *Opts, p float64) int {
+	n := len(all)
+	return Mutate(r, all[3].(*fix.Component).Items(), m.Header, o, p) + Mutate(r, all[4:n-2], m.Body, o, p)
+}
+
 func wireKind(v fix.Value) byte {
 	switch v.(type) {
 	case *fix.String:
